@@ -734,6 +734,7 @@ def stmt(env, depth):
         kinds += ["if"] * 4 + ["for"] * 2 + ["while", "try"]
     if len(env.vars) >= 2:
         kinds += ["tuple"]
+    kinds += ["tuple_new"]
     if any(t.startswith("list[") for t in env.vars.values()):
         kinds += ["listop"] * 3
     kinds += ["listnew"]
@@ -808,11 +809,19 @@ def stmt(env, depth):
         ta, tb = env.vars[a], env.vars[b]
         if ta.startswith("list[") or tb.startswith("list["):
             return assign_new(env)
-        if (ta == tb or (ta in NUM and tb in NUM)) and rng.random() < 0.5:
+        if ta == tb and rng.random() < 0.5:       # same type only: swapping an int with a float makes later int-only operations invalid PYTHON
             env.feat("tuple swap")
             return [f"{a}, {b} = {b}, {a}"]
         env.feat("tuple assign")
         return [f"{a}, {b} = {gen_typed(env, 1, ta)}, {gen_typed(env, 1, tb)}"]
+    if k == "tuple_new":
+        # both names new: plain declarations (globals at top level, locals elsewhere) - inside the guard
+        ta, tb = rng.choice(["int", "float", "bool", "String"]), rng.choice(["int", "int", "float", "String"])
+        ea, eb = gen_typed(env, 1, ta), gen_typed(env, 1, tb)
+        a, b = env.fresh(VAR_POOL), env.fresh(VAR_POOL)
+        env.vars[a], env.vars[b] = ta, tb
+        env.feat("tuple all-new")
+        return [f"{a}, {b} = {ea}, {eb}"]
     if k == "listnew":
         return list_new(env)
     if k == "listop":
